@@ -25,6 +25,20 @@ var h16Classes = []struct {
 
 // H16a: classes, named combinations, constructor defaults, retry budget.
 func H16a() {
+	// the built-ins must be what they are whatever recipes ran before in the process
+	if e := vChoice("earlier-recipe", 5); e > 0 {
+		vSummary(true)
+		r := []CharRecipe{
+			{Length: 3, Allow: Digits, AllowChars: "abcdef"},
+			{Length: 3, Allow: Uppers, AllowChars: "xy"},
+			{Length: 3, Allow: Lowers, ExcludeChars: "abc", AllowChars: "0"},
+			{Length: 3, Allow: Symbols, AllowChars: "é"},
+		}[e-1]
+		r.Generate()
+		r.Alphabet()
+		vSummary(false)
+		vReach("after-another-recipe")
+	}
 	for _, c := range h16Classes {
 		r := CharRecipe{Length: 1, Allow: c.f}
 		vAssert(r.Alphabet() == c.want, "a character class is not the documented set: "+c.name)
@@ -63,12 +77,15 @@ var h16Presets = []struct {
 // of its draws - the documented characters, one-to-one, with the matching entropy.
 func H16p() {
 	np := len(h16Presets)
-	first := vChoice("earlier-preset", np+1) // np: none
+	first := vChoice("earlier-preset", np+2) // np: none, np+1: a single-class recipe with extra characters
 	second := vChoice("preset", np)
 	vSummary(true)
 	if first < np {
 		h16Presets[first].f()
 		h16Presets[first].f()
+	} else if first == np+1 {
+		r := CharRecipe{Length: 3, Allow: Digits, AllowChars: "abcdef"}
+		r.Generate()
 	}
 	p := h16Presets[second]
 	d0 := vDrawCount()
